@@ -11,6 +11,7 @@ fn factory(model: &str) -> Option<Factory> {
         "tms" => Box::new(|c: &Value| Box::new(models::tms::TmsM::new(c)) as Box<dyn Model>),
         "kb" => Box::new(|c: &Value| Box::new(models::kb::KB::new(c)) as Box<dyn Model>),
         "watermark" => Box::new(|c: &Value| Box::new(models::watermark::WM::new(c)) as Box<dyn Model>),
+        "undo" => Box::new(|c: &Value| Box::new(models::undo::UF::new(c)) as Box<dyn Model>),
         _ => return None,
     })
 }
